@@ -1,13 +1,13 @@
 CONSTANTS
-  Keys <- Keys4
-  Tmpl <- Tmpl4
-  KeyOrd <- Ord4
-  InitEx <- Init4
+  Keys <- Keys3
+  Tmpl <- Tmpl3
+  KeyOrd <- Ord3
+  InitEx <- Init3
   TO <- TOsmall
   RevAhead = {0, 1}
   MaxNow = 4
   MaxPkt = 2
-  MaxScan = 1
+  MaxScan = 2
   Batch = 1
   Split = FALSE
   RevRace = FALSE
